@@ -101,8 +101,10 @@ def _unquote_model(s, plus, shortcut=False):
                 if not (v < 128):
                     # a lone byte >= 0x80 is never valid UTF-8: errors='replace' yields U+FFFD.
                     # Two or more adjacent escapes could form a valid sequence: not modelled.
-                    nxt = i + 3 < n and (cps[i + 3] == 37)
-                    prv = i >= 3 and (cps[i - 3] == 37)
+                    nxt = i + 5 <= n - 1 and (cps[i + 3] == 37) and _hexval(cps[i + 4]) is not None \
+                        and _hexval(cps[i + 5]) is not None
+                    prv = i >= 3 and (cps[i - 3] == 37) and _hexval(cps[i - 2]) is not None \
+                        and _hexval(cps[i - 1]) is not None
                     if nxt or prv:
                         raise Unsupported('adjacent percent-decoded non-ASCII bytes in a symbolic string')
                     out.append(0xFFFD)
